@@ -684,15 +684,28 @@ Definition user_call : M unit :=
   s <- get ;;
   if bool_decide (crash_at s = Some (inv_count s)) then panic PInjected else ret tt.
 
+(* impl Drop for Var (public.rs:272): the last handle queues the var on dead_vars *)
+Definition drop_var_handle (x : vid) : M unit :=
+  v <- get_var x ;;
+  upd_var x (fun v => v <| v_handles := pred (v_handles v) |>) ;;;
+  (if bool_decide (v_handles v = 1%nat) then modify (fun s => s <| dead_vars := dead_vars s ++ [x] |>)
+   else ret tt).
+
+(* a closure reaches a variable through the handle the program holds; once that is gone (an earlier
+   EDropVar) the closure finds nothing and does nothing *)
+Definition with_var_handle (x : vid) (m : M unit) : M unit :=
+  v <- get_var x ;; if bool_decide (v_handles v = 0%nat) then ret tt else m.
+
 Definition run_effect (arg : val) (e : effect) : M unit :=
   match e with
-  | ESet x v => var_write x (fun _ => VInt v) ;;; ret tt
-  | ESetArg x => var_write x (fun _ => arg) ;;; ret tt
-  | EUpdate x d => var_write x (fun o => VInt (as_int o + d)) ;;; ret tt
-  | EModify x d => var_write x (fun o => VInt (as_int o + d)) ;;; ret tt
-  | EReplace x v => old <- var_write x (fun _ => VInt v) ;; emit (EvEffReplace x old)
-  | EReplaceWith x d => old <- var_write x (fun o => VInt (as_int o + d)) ;; emit (EvEffReplace x old)
-  | EGet x => v <- get_var x ;; emit (EvEffGet x (v_value v))
+  | EDropVar x => with_var_handle x (drop_var_handle x)
+  | ESet x v => with_var_handle x (var_write x (fun _ => VInt v) ;;; ret tt)
+  | ESetArg x => with_var_handle x (var_write x (fun _ => arg) ;;; ret tt)
+  | EUpdate x d => with_var_handle x (var_write x (fun o => VInt (as_int o + d)) ;;; ret tt)
+  | EModify x d => with_var_handle x (var_write x (fun o => VInt (as_int o + d)) ;;; ret tt)
+  | EReplace x v => with_var_handle x (old <- var_write x (fun _ => VInt v) ;; emit (EvEffReplace x old))
+  | EReplaceWith x d => with_var_handle x (old <- var_write x (fun o => VInt (as_int o + d)) ;; emit (EvEffReplace x old))
+  | EGet x => with_var_handle x (v <- get_var x ;; emit (EvEffGet x (v_value v)))
   | ERead o => r <- observer_read o ;;
                emit (EvEffRead o (match r with inl v => inl (Ok v) | inr c => inr c end))
   | EStabilise => st <- gets st_status ;;
